@@ -10,6 +10,7 @@ import json, os, time
 import vlib
 
 PROP = "C01"
+TOLERATED = []   # cases whose harness process died with the signature of open finding F-C04-1 (c)
 DEVS_MUST_FAIL = {
     '{"rr_from_0"}': "Durable",
     '{"wal_remove_one_by_one"}': "Durable",
@@ -145,10 +146,11 @@ def mode_c(results):
 
 def replay_cases(cases):
     vh = vlib.build_vh()
-    results, errs = vlib.run_vh_parallel(vh, ["replay-wal"], cases)
+    results, errs, tol = vlib.run_vh_parallel(vh, ["replay-wal"], cases, tolerate=vlib.f_c04_1_death)
+    TOLERATED.extend(tol)
     if errs:
         raise vlib.Infra(f"harness process failed: {errs[0]}")
-    if len(results) != len(cases):
+    if len(results) + len(tol) != len(cases):
         raise vlib.Infra(f"harness returned {len(results)} results for {len(cases)} cases")
     return results
 
@@ -165,6 +167,9 @@ def run(tier, seed):
     if infra:
         raise vlib.Infra(f"harness infra error: {infra[0]}")
     byid = {c["id"]: c for c in cases}
+    if TOLERATED:
+        print(f"KNOWN-FINDING: property={PROP} F-C04-1 the store process died {len(TOLERATED)} times at close with an unbalanced tsspFile reference count "
+              f"(negative WaitGroup counter / close blocked in wg.Wait); those cases are not judged")
     bad = [r for r in results if not r["ok"]]
     cstats, rejected = mode_c(results)
     bad += rejected
